@@ -46,6 +46,10 @@ pub enum COp {
     /// a fresh container instance (new simulated hash seed) with the same members
     Rebuild { hash_seed: u64, order_seed: u64 },
     Edge(Op),
+    /// the DOT exports of a separate graph of `n` nodes whose keys are distinct but may PRINT
+    /// alike (`PortKey`): one node statement per member and one edge statement per iterated edge,
+    /// whatever the keys look like as text
+    AltDot { n: usize, edges: Vec<(usize, usize)> },
 }
 
 #[derive(Clone, Debug, Serialize, Deserialize)]
@@ -464,6 +468,48 @@ fn step<F: Flavour>(st: &mut St<F>, op: &COp, stats: &mut Stats) -> Result<(), (
             }
             stats.inc("dot_exports_checked");
         }
+        COp::AltDot { n, edges } => {
+            let edges: Vec<(usize, usize)> = edges.iter().filter(|(u, v)| u < n && v < n).copied().collect();
+            let (plain, with_attr) = F::alt_dot(*n, &edges);
+            let name = |k: usize| crate::flavour::port_key(k).to_string();
+            let mut want_nodes: Vec<String> = (0..*n).map(name).collect();
+            want_nodes.sort();
+            let mut want_edges: Vec<(String, String)> = Vec::new();
+            for (u, v) in &edges {
+                want_edges.push((name(*u), name(*v)));
+                if !F::DIRECTED {
+                    want_edges.push((name(*v), name(*u)));
+                }
+            }
+            want_edges.sort();
+            for (which, text) in [("to_dot", Some(plain)), ("to_dot_with_attr", with_attr)] {
+                let Some(text) = text else { continue };
+                let (Some(open), Some(close)) = (text.find('{'), text.rfind('}')) else {
+                    return fail(&format!("dot:{which}"), format!("not a `graph {{ ... }}` document: {text:?}"));
+                };
+                let (mut nodes, mut es) = (Vec::new(), Vec::new());
+                for stmt in text[open + 1..close].split(|c| c == '\n' || c == ';') {
+                    let head: String = stmt.split('[').next().unwrap_or("").chars().filter(|c| !c.is_whitespace() && *c != '"').collect();
+                    if head.is_empty() {
+                        continue;
+                    }
+                    if let Some(a) = head.find("->").or_else(|| head.find("--")) {
+                        es.push((head[..a].to_string(), head[a + 2..].to_string()));
+                    } else {
+                        nodes.push(head);
+                    }
+                }
+                nodes.sort();
+                es.sort();
+                if nodes != want_nodes {
+                    return fail(&format!("dot:{which}"), format!("keys that print alike: node statements {nodes:?}, one per member would be {want_nodes:?}"));
+                }
+                if es != want_edges {
+                    return fail(&format!("dot:{which}"), format!("keys that print alike: edge statements {es:?}, one per iterated edge would be {want_edges:?}"));
+                }
+            }
+            stats.inc("dot_exports_with_keys_that_print_alike_checked");
+        }
         COp::ToDotAttr(spec) => {
             let Some(text) = F::g_to_dot_attr(st.g(), *spec) else { return Ok(()) };
             let got = match parse_dot(&text) {
@@ -660,6 +706,11 @@ impl Engine for Container {
                     nmask: (rng.next_u64() & 0xffff) as u16,
                     emask: (rng.next_u64() & 0xffff) as u16,
                 }),
+                72 if rng.chance(1, 4) => {
+                    let an = rng.range(2, 6);
+                    let edges = (0..rng.below(7)).map(|_| (rng.below(an), rng.below(an))).collect();
+                    COp::AltDot { n: an, edges }
+                }
                 72..=74 => COp::Rebuild { hash_seed: rng.next_u64(), order_seed: rng.next_u64() },
                 _ => {
                     let op = gen::gen_op(rng, &m, &mut next_edge, &cfg);
